@@ -1,8 +1,8 @@
-(* Two-process transition system for the connection lifecycle of ConnectToPanel
-   (connecttopanel.go:47-51, 54-68, 133-148, 225-238): the main goroutine and, per
-   connection, the writer goroutine, sharing per connection [exit] (atomic bool), [quit]
-   (closed channel?) and the socket (open?), and globally the wait-group counter and the
-   context.  A run is a list of scheduler / environment choices.  Reads are abstract: the
+(* Transition system for the connection lifecycle of ConnectToPanel (connecttopanel.go): the
+   main goroutine and, per connection, the WRITER goroutine and (since /repo 02bcd7d) the
+   WATCHER goroutine (select over ctx.Done / quit; on ctx.Done: exit.Store(true), conn.Close()),
+   sharing per connection [exit] (atomic bool), [quit] (closed channel?) and the socket (open?),
+   and globally the wait-group counter and the context.  A run is a list of scheduler / environment choices.  Reads are abstract: the
    environment decides whether a read delivers a message or fails (a read on a locally
    closed socket can only fail).  No proofs here. *)
 From RP Require Import Lib.Base.
@@ -12,7 +12,7 @@ Inductive mpc : Type :=
 | MDial
 | MWaitNoConn     (* select { ctx.Done / msgsToPanel / timer } after a failed dial *)
 | MProbe          (* write ping, read with 2 s deadline, classify, maybe write "\n" *)
-| MSpawn          (* wg.Add(1); go func() { ... }   (the Add is in main since /repo c935b5d) *)
+| MSpawn          (* wg.Add(1); go watcher; wg.Add(1); go writer   (both Adds are in main; writer since /repo c935b5d, watcher since 02bcd7d) *)
 | MOnConnect
 | MRead           (* the read loop *)
 | MEofSleep       (* ASCII + io.EOF: time.Sleep(1 s) *)
@@ -28,12 +28,13 @@ Inductive wpc : Type :=
 | WAbsent         (* goroutine not created yet *)
 | WNotStarted     (* created and registered with the wait group, not yet scheduled *)
 | WSelect
+| WWriting        (* writer only: inside conn.Write (returns when the panel takes the bytes or the socket is closed) *)
 | WExitStore      (* ctx.Done chosen: exit.Store(true) *)
 | WCloseConn      (* conn.Close() *)
 | WDefer          (* deferred wg.Done() *)
 | WDone.
 
-Record crec : Type := mkC { c_w : wpc; c_exit : bool; c_quit : bool; c_open : bool }.
+Record crec : Type := mkC { c_w : wpc; c_x : wpc (* the watcher, same program counters, never WWriting *); c_exit : bool; c_quit : bool; c_open : bool }.
 
 Record st : Type := mkSt {
   s_m : mpc;
@@ -55,28 +56,30 @@ Inductive wenv : Type := WCtx | WQuit | WMsg | WNone.
 Inductive choice : Type :=
 | CMain (e : menv)
 | CWriter (i : nat) (w : wenv)
+| CWatcher (i : nat) (w : wenv)
 | CCancel.
 
 Definition upd_cur (s : st) (f : crec -> crec) : list crec :=
   match s_cs s with c :: r => f c :: r | [] => [] end.
-Definition cur (s : st) : crec := hd (mkC WAbsent false false false) (s_cs s).
+Definition cur (s : st) : crec := hd (mkC WAbsent WAbsent false false false) (s_cs s).
 
-Definition set_w (w : wpc) (c : crec) : crec := mkC w (c_exit c) (c_quit c) (c_open c).
-Definition set_exit (c : crec) : crec := mkC (c_w c) true (c_quit c) (c_open c).
-Definition set_quit (c : crec) : crec := mkC (c_w c) (c_exit c) true (c_open c).
-Definition set_closed (c : crec) : crec := mkC (c_w c) (c_exit c) (c_quit c) false.
+Definition set_w (w : wpc) (c : crec) : crec := mkC w (c_x c) (c_exit c) (c_quit c) (c_open c).
+Definition set_x (x : wpc) (c : crec) : crec := mkC (c_w c) x (c_exit c) (c_quit c) (c_open c).
+Definition set_exit (c : crec) : crec := mkC (c_w c) (c_x c) true (c_quit c) (c_open c).
+Definition set_quit (c : crec) : crec := mkC (c_w c) (c_x c) (c_exit c) true (c_open c).
+Definition set_closed (c : crec) : crec := mkC (c_w c) (c_x c) (c_exit c) (c_quit c) false.
 
 Definition main_step (s : st) (e : menv) : option (st * lab) :=
   let go m := mkSt m (s_cs s) (s_wg s) (s_ctx s) in
   match s_m s, e with
   | MStart, ENone => Some (mkSt MDial (s_cs s) (s_wg s + 1) (s_ctx s), LbTau)
-  | MDial, EDialOk => Some (mkSt MProbe (mkC WAbsent false false true :: s_cs s) (s_wg s) (s_ctx s), LbDial true)
+  | MDial, EDialOk => Some (mkSt MProbe (mkC WAbsent WAbsent false false true :: s_cs s) (s_wg s) (s_ctx s), LbDial true)
   | MDial, EDialFail => Some (go MWaitNoConn, LbDial false)
   | MWaitNoConn, ESelCtx => if s_ctx s then Some (go MReturning, LbTau) else None
   | MWaitNoConn, ESelTimer => Some (go MDial, LbSleptNoConn)
   | MWaitNoConn, ESelMsg => Some (go MDial, LbTau)
   | MProbe, ENone => Some (go MSpawn, LbTau)
-  | MSpawn, ENone => Some (mkSt MOnConnect (upd_cur s (set_w WNotStarted)) (s_wg s + 1) (s_ctx s), LbTau)
+  | MSpawn, ENone => Some (mkSt MOnConnect (upd_cur s (fun c => set_x WNotStarted (set_w WNotStarted c))) (s_wg s + 2) (s_ctx s), LbTau)
   | MOnConnect, ENone => Some (go MRead, LbConnect)
   | MRead, EReadOk => if c_open (cur s) then Some (go MRead, LbDeliver) else None
   | MRead, EReadFail eof =>
@@ -108,10 +111,27 @@ Definition writer_step (s : st) (i : nat) (w : wenv) : option (st * lab) :=
     | WNotStarted, WNone => upd (set_w WSelect) 0
     | WSelect, WCtx => if s_ctx s then upd (set_w WExitStore) 0 else None
     | WSelect, WQuit => if c_quit c then upd (set_w WDefer) 0 else None
-    | WSelect, WMsg => upd (set_w WSelect) 0
+    | WSelect, WMsg => upd (set_w WWriting) 0
+    | WWriting, WNone => upd (set_w WSelect) 0
     | WExitStore, WNone => upd (fun c => set_w WCloseConn (set_exit c)) 0
     | WCloseConn, WNone => upd (fun c => set_w WDefer (set_closed c)) 0
     | WDefer, WNone => upd (set_w WDone) (-1)
+    | _, _ => None
+    end
+  end.
+
+Definition watcher_step (s : st) (i : nat) (w : wenv) : option (st * lab) :=
+  match nth_error (s_cs s) i with
+  | None => None
+  | Some c =>
+    let upd f dwg := Some (mkSt (s_m s) (upd_nth (s_cs s) i f) (s_wg s + dwg) (s_ctx s), LbTau) in
+    match c_x c, w with
+    | WNotStarted, WNone => upd (set_x WSelect) 0
+    | WSelect, WCtx => if s_ctx s then upd (set_x WExitStore) 0 else None
+    | WSelect, WQuit => if c_quit c then upd (set_x WDefer) 0 else None
+    | WExitStore, WNone => upd (fun c => set_x WCloseConn (set_exit c)) 0
+    | WCloseConn, WNone => upd (fun c => set_x WDefer (set_closed c)) 0
+    | WDefer, WNone => upd (set_x WDone) (-1)
     | _, _ => None
     end
   end.
@@ -120,17 +140,22 @@ Definition step (s : st) (c : choice) : option (st * lab) :=
   match c with
   | CMain e => main_step s e
   | CWriter i w => writer_step s i w
+  | CWatcher i w => watcher_step s i w
   | CCancel => if s_ctx s then None else Some (mkSt (s_m s) (s_cs s) (s_wg s) true, LbCancel)
   end.
 
-(* The code BEFORE /repo c935b5d executed wg.Add(1) inside the writer goroutine: the spawn did
-   not touch the counter, the goroutine's first step incremented it.  Kept only to state the
-   defect that was found (Props/C11.v c11_legacy_wg_gap). *)
+(* The code BEFORE /repo c935b5d had no watcher and executed wg.Add(1) inside the writer goroutine:
+   the spawn did not touch the counter, the writer's first step incremented it, the watcher does not
+   exist (its choices are disabled, it stays WNotStarted and is never counted).  Kept only to state
+   the defect that was found (Props/C11.v c11_legacy_wg_gap). *)
 Definition step_legacy (s : st) (c : choice) : option (st * lab) :=
+  match c with
+  | CWatcher _ _ => None
+  | _ =>
   match step s c with
   | Some (s', l) =>
     match c, s_m s with
-    | CMain ENone, MSpawn => Some (mkSt (s_m s') (s_cs s') (s_wg s' - 1) (s_ctx s'), l)
+    | CMain ENone, MSpawn => Some (mkSt (s_m s') (s_cs s') (s_wg s' - 2) (s_ctx s'), l)
     | CWriter i WNone, _ =>
       match nth_error (s_cs s) i with
       | Some cr => match c_w cr with
@@ -142,6 +167,7 @@ Definition step_legacy (s : st) (c : choice) : option (st * lab) :=
     | _, _ => Some (s', l)
     end
   | None => None
+  end
   end.
 Fixpoint run_legacy (s : st) (cs : list choice) : st * list lab :=
   match cs with
@@ -177,12 +203,12 @@ Definition mpc_eqb (a b : mpc) : bool :=
   end.
 Definition wpc_eqb (a b : wpc) : bool :=
   match a, b with
-  | WAbsent, WAbsent | WNotStarted, WNotStarted | WSelect, WSelect | WExitStore, WExitStore
+  | WAbsent, WAbsent | WNotStarted, WNotStarted | WSelect, WSelect | WWriting, WWriting | WExitStore, WExitStore
   | WCloseConn, WCloseConn | WDefer, WDefer | WDone, WDone => true
   | _, _ => false
   end.
 Definition crec_eqb (a b : crec) : bool :=
-  wpc_eqb (c_w a) (c_w b) && Bool.eqb (c_exit a) (c_exit b) && Bool.eqb (c_quit a) (c_quit b) && Bool.eqb (c_open a) (c_open b).
+  wpc_eqb (c_w a) (c_w b) && wpc_eqb (c_x a) (c_x b) && Bool.eqb (c_exit a) (c_exit b) && Bool.eqb (c_quit a) (c_quit b) && Bool.eqb (c_open a) (c_open b).
 Definition st_eqb (a b : st) : bool :=
   mpc_eqb (s_m a) (s_m b) && list_eqb crec_eqb (s_cs a) (s_cs b) && (s_wg a =? s_wg b) && Bool.eqb (s_ctx a) (s_ctx b).
 
@@ -201,7 +227,7 @@ Definition lab_eqb (a b : lab) : bool :=
 Definition search_choices : list choice :=
   [CMain ENone; CMain EDialOk; CMain EDialFail; CMain ESelCtx; CMain ESelTimer; CMain EReadOk;
    CMain (EReadFail false); CMain (EReadFail true);
-   CWriter 0 WNone; CWriter 0 WCtx; CWriter 0 WQuit; CCancel].
+   CWriter 0 WNone; CWriter 0 WCtx; CWriter 0 WQuit; CWatcher 0 WNone; CWatcher 0 WCtx; CWatcher 0 WQuit; CCancel].
 
 Fixpoint settle_one (fuel : nat) (s : st) (i : nat) : st :=
   match fuel with
@@ -211,13 +237,20 @@ Fixpoint settle_one (fuel : nat) (s : st) (i : nat) : st :=
     | Some (s', _) => settle_one f s' i
     | None => match writer_step s i WQuit with
               | Some (s', _) => settle_one f s' i
-              | None => s
+              | None =>
+                match watcher_step s i WNone with
+                | Some (s', _) => settle_one f s' i
+                | None => match watcher_step s i WQuit with
+                          | Some (s', _) => settle_one f s' i
+                          | None => s
+                          end
+                end
               end
     end
   end.
 (* old connections: indices 1.. *)
 Definition settle (s : st) : st :=
-  fold_left (fun acc i => settle_one 6 acc i) (seq 1 (length (s_cs s) - 1)) s.
+  fold_left (fun acc i => settle_one 12 acc i) (seq 1 (length (s_cs s) - 1)) s.
 
 Definition mem_st (x : st) (l : list st) : bool := existsb (st_eqb x) l.
 
